@@ -28,6 +28,8 @@ Step(q) ==
     [] q.k = "grid" -> [grid |-> Grid, meta |-> Meta]
     [] q.k = "histplan" -> [plans |-> [m \in AllModels |-> {[a |-> ab[1], b |-> ab[2], args |-> ArgsG(m, ab[1]), steps |-> HistPlan(ab[1], ab[2])] : ab \in HistPairs(m)}]]
     [] q.k = "hist" -> HistStep(q)
+    [] q.k = "elemplan" -> [patterns |-> ElemPatterns, args |-> [m \in AllModels |-> {[par |-> a, xs |-> ElemArgs(m, a)] : a \in ParamsG(m)}]]
+    [] q.k = "elem" -> ElemStep(q)
     [] q.k = "obs" -> IF Calc(q.model) = "loading" THEN ObsLoadingExplicit(q.model, q.par, q.pts, q.zero, q.hen)
                       ELSE ObsPressureExplicit(q.model, q.par, q.pts, q.zero, q.hen)
 
